@@ -30,7 +30,8 @@ def childFormatted (cc : Ctx) (ck : String) : Except (String × String) Val :=
   match Ctx.get? cc ck with
   | none => .error ("pypyr.errors.KeyNotInContextError", ck ++ " not found in the pypyr context.")
   | some v =>
-    match fmtVal FMT_FUEL cc v with
+    -- `get_formatted(key)`: a KeyNotInContextError is re-raised with a longer text (`fmtAtKey`)
+    match fmtAtKey { ctx := cc } v with
     | .error x => .error (x.name, x.msg)
     | .ok fv => .ok fv
 
@@ -41,7 +42,7 @@ def writeOutStep (child : St) (acc : St × Res) (x : String × String) : St × R
     match Ctx.get? child.ctx x.2 with
     | none => raiseNew p "pypyr.errors.KeyNotInContextError" (x.2 ++ " not found in the pypyr context.")
     | some v =>
-      match fmtVal FMT_FUEL child.ctx v with
+      match fmtAtKey child v with
       | .error e => raiseExc p e
       | .ok fv => ({ p with ctx := Ctx.set p.ctx x.1 fv }, .ok)
   | other => other
@@ -65,7 +66,9 @@ theorem writeOutStep_ok (child p : St) (x : String × String) :
   | none => rfl
   | some v =>
     simp only []
-    cases fmtVal FMT_FUEL child.ctx v with
+    have hf : fmtAtKey ({ ctx := child.ctx } : St) v = fmtAtKey child v := rfl
+    rw [hf]
+    cases fmtAtKey child v with
     | error e => rfl
     | ok fv => rfl
 
